@@ -146,8 +146,9 @@ def main(argv=None):
         # one fresh fork of this process per function spec: z3's resource accounting depends on what the
         # process did before, so a worker that is reused for several specs makes probe verdicts (and with
         # them the set of explored paths) depend on the scheduling of the pool
-        with ctxmp.Pool(min(a.jobs, nspecs), maxtasksperchild=1) as pool:
-            results = pool.map(_worker, jobs, chunksize=1)
+        reuse = bool(getattr(mod, 'POOL_REUSE', False))
+        with ctxmp.Pool(min(a.jobs, nspecs), maxtasksperchild=None if reuse else 1) as pool:
+            results = pool.map(_worker, jobs, chunksize=8 if reuse else 1)
     else:
         results = [_worker(j) for j in jobs]
 
